@@ -523,6 +523,8 @@ class Runner:
                 start = CLOCK.t
                 self.sweeps.clear()
                 await vtime.vsleep(dt)
+                for _ in range(6):      # a sweep falling due exactly now runs here, not inside a later command
+                    await asyncio.sleep(0)
                 cur = start
                 for s in self.sweeps:
                     self.eff.append((f"adv {round((s - cur) * 8)}", "U"))
